@@ -53,6 +53,12 @@ class Disk:
         self.reads = []
         self.fired = None
         self.keep_weights_bytes = False
+        # kill during the signal handler's own checkpoint: offsets counted from the event index at delivery
+        self.signal_base = None
+        self.kill_after_signal = {}
+        for f in plan or []:
+            if f["kind"] == "kill_fs_after_signal":
+                self.kill_after_signal[int(f["offset"])] = f
 
     # ------------------------------------------------------------------
     def rel(self, path):
@@ -81,6 +87,11 @@ class Disk:
         if extra:
             rec.update(extra)
         inside = self.kill_inside.get(i)
+        rel_fault = None
+        if self.signal_base is not None:
+            rel_fault = self.kill_after_signal.get(i - self.signal_base)
+            if rel_fault is not None and rel_fault.get("prefix") is not None:
+                inside = rel_fault
         if inside is not None and data is not None:
             L = int(inside["prefix"])
             L = max(0, min(L, len(data)))
@@ -101,6 +112,8 @@ class Disk:
         if self.record_trace:
             self.nb.note("fs", **rec)
         after = self.kill_after.get(i)
+        if after is None and rel_fault is not None and rel_fault.get("prefix") is None:
+            after = rel_fault
         if after is not None:
             self._die(after, rec)
         if self.snapshot_on is not None:
